@@ -144,6 +144,7 @@ class C01(Prop):
 
 class C03(Prop):
     id = "C03"
+    extra_profiles = ["nochecks"]
     required = ["C03.parseBytes_no_panic", "C03.parseStr_no_panic", "C03.v2_parse_no_panic", "C03.auto_parse_no_panic", "C03.v1_accessors_no_panic", "C03.v2_accessors_no_panic", "C03.tlv_next_no_panic", "C03.tlv_count_bound", "C03.tlv_progress"]
     rule = ("every generator of C01/C02/C11 through every entry point and accessor, in builds with and without overflow checks; multi-byte characters adjacent to CR; "
             "non-trivial = distinct inputs that reach a checked primitive at its boundary (CR last, CR + lead byte, cut = len, length = family size)")
